@@ -73,31 +73,72 @@ def check(ctx):
   r4(ctx)
 
 
+def resolve_local_callable(prog, f, expr):
+  """A callable referenced inside builder f: nested def of f, static/class method of its class, or a module function."""
+  if isinstance(expr, ast.Name):
+    if expr.id in f.nested:
+      return f.nested[expr.id]
+    # a local alias of a method:  is_user_method = ClientProxyBuilder._IsUserMethod
+    al = [st.value for st in walk_no_nested(f.node) if isinstance(st, ast.Assign) and U(st.targets[0]) == expr.id and isinstance(st.value, (ast.Attribute, ast.Name))]
+    if len(al) == 1 and U(al[0]) != expr.id:
+      return resolve_local_callable(prog, f, al[0])
+    return prog.try_func(f.module.rel, expr.id)
+  if isinstance(expr, ast.Attribute) and isinstance(expr.value, ast.Name) and f.cls is not None and expr.value.id in ('self', 'cls', f.cls.name):
+    return prog.lookup_method(f.cls, expr.attr)
+  return None
+
+
+def find_factory(prog, f):
+  """The function that makes one proxy method: the callee of the table values."""
+  for b in table_builders(f, f.params[0]):
+    fn = resolve_local_callable(prog, f, b['factory'])
+    if fn is not None:
+      return fn
+  return f.nested.get('ProxyMethod')
+
+
+def _is_factory_call(f, c):
+  """ProxyMethod(...)-like call: a call whose callee is a nested def of f / a method of its class that itself defines the wrapper."""
+  if not isinstance(c, ast.Call):
+    return False
+  nm = c.func.id if isinstance(c.func, ast.Name) else c.func.attr if isinstance(c.func, ast.Attribute) else ''
+  if isinstance(c.func, ast.Name) and nm in f.nested and f.nested[nm].nested:
+    return True
+  return nm.replace('_', '').lower().endswith('proxymethod')
+
+
 def table_builders(f, iface):
   """Places where a proxy-method table is filled: dict comprehensions or for-loops over an
-  enumeration of the interface.  -> list of dict(form, iter, key, name_expr, args, kws, dest)"""
+  enumeration of the interface.  -> list of dict(iter, filtered, sync, asyn, std_args, kws, node, dest?, factory)"""
   out = []
   for n in walk_no_nested(f.node):
-    if isinstance(n, ast.DictComp) and isinstance(n.value, ast.Call) and U(n.value.func) == 'ProxyMethod':
+    if isinstance(n, ast.DictComp) and _is_factory_call(f, n.value):
       g = n.generators[0]
-      var = U(g.target)
       key = U(n.key).replace(' ', '').replace('"', "'")
-      base = '%s[0]' % var
       args = n.value.args
-      std_args = len(args) == 1 and isinstance(args[0], ast.Starred) and U(args[0].value) == var
+      if isinstance(g.target, ast.Tuple) and len(g.target.elts) == 2:
+        a, b = [U(e) for e in g.target.elts]
+        base = a
+        std_args = [U(x) for x in args] == [a, b]
+      else:
+        var = U(g.target)
+        base = '%s[0]' % var
+        std_args = (len(args) == 1 and isinstance(args[0], ast.Starred) and U(args[0].value) == var) or [U(x).replace(' ', '') for x in args] == ['%s[0]' % var, '%s[1]' % var]
       out.append({'iter': g.iter, 'filtered': bool(g.ifs), 'asyn': key == base + "+'_async'", 'sync': key == base, 'std_args': std_args,
-                  'kws': dict((k.arg, U(k.value)) for k in n.value.keywords), 'node': n})
+                  'kws': dict((k.arg, U(k.value)) for k in n.value.keywords), 'node': n, 'factory': n.value.func, 'extra_args': []})
     elif isinstance(n, ast.For) and isinstance(n.target, ast.Tuple) and len(n.target.elts) == 2:
       a, b = [U(e) for e in n.target.elts]
-      sts = [st for st in n.body if isinstance(st, ast.Assign) and isinstance(st.targets[0], ast.Subscript) and isinstance(st.value, ast.Call) and U(st.value.func) == 'ProxyMethod']
-      if len(sts) != 1:
-        continue
-      st = sts[0]
-      key = U(st.targets[0].slice).replace(' ', '').replace('"', "'")
-      std_args = [U(x) for x in st.value.args] == [a, b]
-      extra = [x for x in n.body if x is not st and not (isinstance(x, ast.Expr) and isinstance(x.value, ast.Constant))]
-      out.append({'iter': n.iter, 'filtered': bool(extra), 'asyn': key == a + "+'_async'", 'sync': key == a, 'std_args': std_args,
-                  'kws': dict((k.arg, U(k.value)) for k in st.value.keywords), 'node': n, 'dest': U(st.targets[0].value)})
+      sts = [st for st in n.body if isinstance(st, ast.Assign) and isinstance(st.targets[0], ast.Subscript) and _is_factory_call(f, st.value)]
+      for st in sts:
+        key = U(st.targets[0].slice).replace(' ', '').replace('"', "'")
+        pos = [U(x) for x in st.value.args]
+        std_args = pos[:2] == [a, b]
+        extra = [x for x in n.body if x not in sts and not (isinstance(x, ast.Expr) and isinstance(x.value, ast.Constant))]
+        kws = dict((k.arg, U(k.value)) for k in st.value.keywords)
+        if len(pos) == 3:
+          kws['asynchronous'] = pos[2]          # flag passed positionally
+        out.append({'iter': n.iter, 'filtered': bool(extra), 'asyn': key == a + "+'_async'", 'sync': key == a, 'std_args': std_args,
+                    'kws': kws, 'node': n, 'dest': U(st.targets[0].value), 'factory': st.value.func})
   return out
 
 
@@ -112,7 +153,10 @@ def r1(ctx, f):
     it = b['iter']
     enums.append(U(it))
     ok_it = (isinstance(it, ast.Call) and U(it.func) == 'inspect.getmembers' and len(it.args) == 2 and U(it.args[0]) == iface and not b['filtered'])
-    okv = b['std_args'] and ((b['kws'] == {'asynchronous': 'True'}) if b['asyn'] else (b['kws'] == {} and b['sync']))
+    pm_ = find_factory(ctx.prog, f)
+    flag_ = pm_.params[2] if pm_ is not None and len(pm_.params) > 2 else 'asynchronous'
+    kws_ = b['kws']
+    okv = b['std_args'] and ((list(kws_.values()) == ['True']) if b['asyn'] else (list(kws_.values()) in ([], ['False']) and b['sync']))
     nm = 'async' if b['asyn'] else 'sync' if b['sync'] else 'other'
     kinds[nm] = ok_it and okv
     ctx.ob('C20.R1', f, 'proxy table %s' % nm, ok_it and okv and (b['asyn'] or b['sync']),
@@ -139,7 +183,7 @@ def r1(ctx, f):
   ctx.ob('C20.R1', f, 'proxy class = type(name, (_ProxyBase, Iface), both tables)', ok, 'proxy class construction changed', why)
   pops = [c for c in walk_no_nested(f.node) if isinstance(c, ast.Call) and call_attr(c) == 'pop']
   ctx.ob('C20.R1', f, "only '__init__' is removed from the tables", all(U(c.args[0]) == "'__init__'" for c in pops), 'removed: %s' % [U(c) for c in pops], why, nontrivial=False)
-  pm = f.nested.get('ProxyMethod')
+  pm = find_factory(ctx.prog, f)
   if pm is None:
     raise AnalysisError('ProxyMethod not found')
   inner = list(pm.nested.values())
@@ -194,7 +238,7 @@ def r1(ctx, f):
          'functools.wraps copies __isabstractmethod__ from an @abstractmethod interface method and nothing resets it: the proxy of an abc interface cannot be instantiated',
          'for every interface class the generated client exposes each public method; interfaces are commonly written with abc.abstractmethod')
   d = pm.node.args.defaults
-  ctx.ob('C20.R1', pm, 'ProxyMethod defaults to the blocking form', len(d) == 1 and U(d[0]) == 'False', 'default is %s' % [U(x) for x in d], why, nontrivial=False)
+  ctx.ob('C20.R1', pm, 'ProxyMethod defaults to the blocking form', len(d) == 0 or (len(d) == 1 and U(d[0]) == "False"), 'default is %s' % [U(x) for x in d], why, nontrivial=False)
   outer_ret = [n for n in walk_no_nested(pm.node) if isinstance(n, ast.Return)]
   ctx.ob('C20.R1', pm, 'ProxyMethod returns the wrapper', len(outer_ret) == 1 and U(outer_ret[0].value) == inner.name, 'ProxyMethod returns %s' % [U(r) for r in outer_ret], why, nontrivial=False)
 
@@ -236,7 +280,7 @@ def resolved_key(f, expr):
 def r2(ctx, f):
   prog = ctx.prog
   why = 'the dispatcher (and finally the server) must receive exactly the method name, positional and keyword arguments the caller passed'
-  pm = f.nested['ProxyMethod']
+  pm = find_factory(prog, f)
   inner = list(pm.nested.values())[0]
   a = inner.node.args
   ok_sig = len(a.args) == 1 and a.vararg is not None and a.kwarg is not None and not a.kwonlyargs
@@ -271,10 +315,14 @@ def r2(ctx, f):
 
 def r3(ctx, f):
   why = ('every public method must be proxied: leading/trailing underscores are legal in public names; only dunder names are special')
-  pred = f.nested.get('is_user_method')
+  pred = None
+  for c in walk_no_nested(f.node):
+    if isinstance(c, ast.Call) and U(c.func) == 'inspect.getmembers' and len(c.args) == 2:
+      pred = resolve_local_callable(ctx.prog, f, c.args[1]) or pred
   if pred is None:
-    # predicate passed to getmembers
-    raise AnalysisError('name predicate is_user_method not found')
+    ctx.ob('C20.R3', f, 'the methods are selected by a name predicate handed to inspect.getmembers', False,
+           'no inspect.getmembers(Iface, <predicate>) enumeration found: which names are proxied cannot be established', why)
+    return
   m = pred.params[0]
   name_exprs = {'ClientProxyBuilder._method_name(%s)' % m, '%s.__name__' % m, 'name'}
   for st in walk_no_nested(pred.node):
@@ -303,8 +351,12 @@ def r3(ctx, f):
       what = 'cannot evaluate predicate term %s' % e
     ctx.ob('C20.R3', pred, 'name shape %r %s' % (shape, 'proxied' if want else 'not proxied'), ok, what, why)
   mn = ctx.prog.func(CORE, 'ClientProxyBuilder._method_name')
-  txt = U(mn.node).replace(' ', '')
-  ctx.ob('C20.R3', mn, '_method_name returns the function name', 'return%s.__name__' % mn.params[0] in txt, '_method_name changed', why, nontrivial=False)
+  rets = [r for r in walk_no_nested(mn.node) if isinstance(r, ast.Return)]
+  def _names(e):
+    if isinstance(e, ast.IfExp):
+      return _names(e.body) and _names(e.orelse)
+    return isinstance(e, ast.Attribute) and e.attr in ('__name__', 'func_name') and U(e.value).split('.')[0] == mn.params[0]
+  ctx.ob('C20.R3', mn, '_method_name returns the function name', bool(rets) and all(r.value is not None and _names(r.value) for r in rets), '_method_name returns %s' % [U(r) for r in rets], why, nontrivial=False)
 
 
 def r4(ctx):
@@ -344,17 +396,30 @@ def r4(ctx):
   u = t.params[1]
   why = 'a tcp:// URI yields exactly the listed host:port endpoints in order'
   txt = U(t.node).replace(' ', '')
-  loops = [n for n in walk_no_nested(t.node) if isinstance(n, ast.For)]
-  ok = len(loops) == 1
-  if ok:
-    lp = loops[0]
-    it = U(lp.iter).replace(' ', '')
+  # the enumeration of the endpoints: a for loop or a comprehension over netloc.split(',')
+  enum = [n for n in walk_no_nested(t.node) if isinstance(n, ast.For)] + [n for n in ast.walk(t.node) if isinstance(n, (ast.ListComp, ast.GeneratorExp))]
+  if len(enum) == 1:
+    lp = enum[0]
+    is_loop = isinstance(lp, ast.For)
+    it_node = lp.iter if is_loop else lp.generators[0].iter
+    var = U(lp.target if is_loop else lp.generators[0].target)
+    it = U(it_node).replace(' ', '')
     src = [st for st in walk_no_nested(t.node) if isinstance(st, ast.Assign) and U(st.targets[0]) == it]
     ok = (len(src) == 1 and U(src[0].value).replace(' ', '') == "%s.netloc.split(',')" % u) or it == "%s.netloc.split(',')" % u
     ctx.ob('C20.R4', t, "endpoints = netloc split on ','", ok, 'loop iterates %s' % it, why)
-    sp = [st for st in ast.walk(lp) if isinstance(st, ast.Assign) and isinstance(st.targets[0], ast.Tuple) and isinstance(st.value, ast.Call)
+    # the per-entry code: the loop body / the comprehension element, plus a private helper it hands the entry to
+    scope = list(lp.body) if is_loop else [lp.elt]
+    evar = var
+    for c in [c for n in scope for c in ast.walk(n) if isinstance(c, ast.Call)]:
+      if [U(a) for a in c.args] == [var] and not c.keywords:
+        h = resolve_local_callable(prog, t, c.func)
+        if h is not None and h.module.rel == CORE:
+          scope = scope + list(h.node.body)
+          evar = h.params[-1]
+    nodes = [x for n in scope for x in ast.walk(n)]
+    sp = [st for st in nodes if isinstance(st, ast.Assign) and isinstance(st.targets[0], ast.Tuple) and isinstance(st.value, ast.Call)
           and call_attr(st.value) in ('split', 'rsplit', 'rpartition', 'partition')]
-    ok = len(sp) == 1 and len(sp[0].targets[0].elts) in (2, 3) and U(sp[0].value.func.value) == U(lp.target)
+    ok = len(sp) == 1 and len(sp[0].targets[0].elts) in (2, 3) and U(sp[0].value.func.value) in (var, evar)
     hostv = U(sp[0].targets[0].elts[0]) if ok else 'host'
     portv = U(sp[0].targets[0].elts[-1]) if ok else 'port'
     if ok:
@@ -363,24 +428,34 @@ def r4(ctx):
       # the port is what follows the LAST colon: hosts may contain colons themselves (IPv6 literals such as [::1]:8080)
       ok = (call_attr(c) == 'rsplit' and a == ["':'", '1']) or (call_attr(c) == 'rpartition' and a == ["':'"])
     ctx.ob('C20.R4', t, "host, port = entry split at its last ':'", ok,
-           'split is %s: a host that contains colons (tcp://[::1]:8080) cannot be unpacked into host, port' % [U(s.value) for s in sp], why)
+           'split is %s: a host that contains colons (tcp://[::1]:8080) cannot be unpacked into host, port' % [U(s_.value) for s_ in sp], why)
     if ok:
-      strip = [x for x in ast.walk(lp) if (isinstance(x, ast.Call) and call_attr(x) == 'strip' and U(x.func.value) == hostv and x.args and set(str(getattr(x.args[0], 'value', ''))) == set('[]'))
+      strip = [x for x in nodes if (isinstance(x, ast.Call) and call_attr(x) == 'strip' and U(x.func.value) == hostv and x.args and set(str(getattr(x.args[0], 'value', ''))) == set('[]'))
                or (isinstance(x, ast.Subscript) and U(x).replace(' ', '') == '%s[1:-1]' % hostv)]
       ctx.ob('C20.R4', t, 'brackets of an IPv6 literal are not part of the host', bool(strip), 'the host keeps its [ ] brackets', why)
-    ep = [c for c in ast.walk(lp) if isinstance(c, ast.Call) and U(c.func).endswith('Endpoint')]
-    ok = len(ep) == 1 and [U(a).replace(' ', '') for a in ep[0].args] in ([hostv, 'int(%s)' % portv],)
-    if not ok and len(ep) == 1 and [U(a) for a in ep[0].args] == [hostv, portv]:
-      ok = any(isinstance(st, ast.Assign) and U(st.targets[0]) == portv and U(st.value).replace(' ', '') == 'int(%s)' % portv for st in ast.walk(lp))
+    ep = [c for c in nodes if isinstance(c, ast.Call) and U(c.func).endswith('Endpoint')]
+    def _is_host(x):
+      x = U(x).replace(' ', '')
+      return x == hostv or x == "%s.strip('[]')" % hostv
+    ok = len(ep) == 1 and len(ep[0].args) == 2 and _is_host(ep[0].args[0]) and U(ep[0].args[1]).replace(' ', '') == 'int(%s)' % portv
+    if not ok and len(ep) == 1 and len(ep[0].args) == 2 and _is_host(ep[0].args[0]) and U(ep[0].args[1]) == portv:
+      ok = any(isinstance(st, ast.Assign) and U(st.targets[0]) == portv and U(st.value).replace(' ', '') == 'int(%s)' % portv for st in nodes)
     ctx.ob('C20.R4', t, 'Endpoint(host, int(port))', ok, 'endpoint built as %s' % [U(e) for e in ep], why + '; a text port never equals the integer port of another Endpoint')
-    app = [c for c in ast.walk(lp) if isinstance(c, ast.Call) and isinstance(c.func, ast.Attribute) and c.func.attr in ('append', 'insert', 'add', 'extend')]
-    ok = len(app) == 1 and app[0].func.attr == 'append'
-    lst = U(app[0].func.value) if app else None
-    ctx.ob('C20.R4', t, 'endpoints appended in order', ok, 'collection op is %s' % [U(a) for a in app], why)
     rets = [n for n in walk_no_nested(t.node) if isinstance(n, ast.Return)]
-    ok = len(rets) == 1 and U(rets[0].value).replace(' ', '') == 'StaticServerSetProvider(%s)' % lst
+    if is_loop:
+      app = [c for c in ast.walk(lp) if isinstance(c, ast.Call) and isinstance(c.func, ast.Attribute) and c.func.attr in ('append', 'insert', 'add', 'extend')]
+      ok = len(app) == 1 and app[0].func.attr == 'append'
+      lst = U(app[0].func.value) if app else None
+      ctx.ob('C20.R4', t, 'endpoints appended in order', ok, 'collection op is %s' % [U(a) for a in app], why)
+      ok = len(rets) == 1 and U(rets[0].value).replace(' ', '') == 'StaticServerSetProvider(%s)' % lst
+    else:
+      # a list comprehension keeps the order of its iterable
+      ctx.ob('C20.R4', t, 'endpoints appended in order', isinstance(lp, ast.ListComp) and not lp.generators[0].ifs and len(lp.generators) == 1, 'endpoints collected by %s' % type(lp).__name__, why)
+      holder = [U(st.targets[0]) for st in walk_no_nested(t.node) if isinstance(st, ast.Assign) and st.value is lp]
+      ok = len(rets) == 1 and isinstance(rets[0].value, ast.Call) and U(rets[0].value.func) == 'StaticServerSetProvider' and len(rets[0].value.args) == 1 and \
+        (rets[0].value.args[0] is lp or U(rets[0].value.args[0]) in holder)
     ctx.ob('C20.R4', t, 'returns StaticServerSetProvider(list)', ok, 'returns %s' % [U(r) for r in rets], why)
-    inl = [n for n in ast.walk(lp) if isinstance(n, (ast.If, ast.Break, ast.Continue, ast.Try))]
+    inl = [n for n in (ast.walk(lp) if is_loop else nodes) if isinstance(n, (ast.If, ast.Break, ast.Continue, ast.Try))]
     ctx.ob('C20.R4', t, 'no endpoint is skipped', not inl, 'conditional/skip inside the endpoint loop', why)
   else:
     ctx.ob('C20.R4', t, 'single endpoint loop', False, 'expected one loop over the listed endpoints', why)
